@@ -275,6 +275,283 @@ func checkC18(ctx *Ctx) {
 		ctx.SetCurrent(fmt.Sprintf("C18 history %d seed %d", i, ctx.Seed))
 		c18History(ctx, i)
 	}
+	for i := 0; i < ctx.N(24, 240); i++ {
+		if ctx.Mine(i) {
+			ctx.SetCurrent(fmt.Sprintf("C18 concurrent history %d seed %d", i, ctx.Seed))
+			c18Concurrent(ctx, i)
+		}
+	}
+}
+
+// c18Concurrent: the subscription table under concurrent use. Several connections subscribe at the same
+// moment to the same names and patterns that nobody has subscribed to before; publishers publish to them;
+// two connections leave and re-join a channel again and again while messages are being fanned out to the
+// ones that stay; two connections withdraw the same pattern at the same moment, round after round. The
+// recorded history goes through the same interval checker as the sequential histories (exactly once,
+// in order, only through subscriptions alive during the publish, nothing lost), and PUBSUB CHANNELS /
+// NUMSUB / NUMPAT are compared with the reference table at the quiescent points between the phases.
+func c18Concurrent(ctx *Ctx, i int) {
+	port := freePort()
+	in, err := NewInst(InstOpts{Extra: withTCP(port)})
+	if err != nil {
+		ctx.Broken(err.Error())
+		return
+	}
+	defer in.Close()
+	if err := in.StartTCP(port); err != nil {
+		ctx.Inconclusive("listener did not come up")
+		return
+	}
+	var clock atomic.Int64
+	const K = 5
+	var conns []*psConn
+	for k := 0; k < K; k++ {
+		c, err := Dial(port)
+		if err != nil {
+			ctx.Inconclusive("dial")
+			return
+		}
+		pc := &psConn{name: fmt.Sprintf("s%d", k), c: c, clock: &clock}
+		conns = append(conns, pc)
+		go pc.reader()
+	}
+	defer func() {
+		for _, c := range conns {
+			c.close()
+		}
+	}()
+	admin, err := Dial(port)
+	if err != nil {
+		ctx.Inconclusive("dial")
+		return
+	}
+	defer admin.Close()
+	var pubClients []*Client
+	for p := 0; p < 2; p++ {
+		c, err := Dial(port)
+		if err != nil {
+			ctx.Inconclusive("dial")
+			return
+		}
+		defer c.Close()
+		pubClients = append(pubClients, c)
+	}
+	var trace []string
+	var mu sync.Mutex
+	var subs []*psSub
+	var pubs []*psPub
+	var failed atomic.Bool
+	fail := func(kind, what string) {
+		failed.Store(true)
+		mu.Lock()
+		tr := append([]string{}, trace...)
+		mu.Unlock()
+		ctx.Violate(Violation{Kind: kind, Lane: "pubsub-concurrent", What: what, Case: map[string]interface{}{"phases": tr, "index": i, "seed": ctx.Seed}, Key: "c18|concurrent|" + kind})
+	}
+	note := func(s string) { mu.Lock(); trace = append(trace, s); mu.Unlock() }
+	seqs := make([]int, len(pubClients))
+	publish := func(p int, ch string) *psPub {
+		mu.Lock()
+		seqs[p]++
+		pb := &psPub{id: fmt.Sprintf("c-%d-%d-%d", i, p, seqs[p]), channel: ch, publisher: p, seq: seqs[p]}
+		pubs = append(pubs, pb)
+		mu.Unlock()
+		pb.call = clock.Add(1)
+		v, _, err := pubClients[p].Do("PUBLISH", ch, pb.id)
+		if err != nil || v.IsError() {
+			fail("publish", fmt.Sprintf("PUBLISH %s failed: %v %s", ch, err, v.String()))
+		}
+		pb.ret = clock.Add(1)
+		return pb
+	}
+	// each connection is driven by one goroutine at a time
+	subscribe := func(pc *psConn, pattern bool, names []string) bool {
+		cmd := map[bool]string{false: "SUBSCRIBE", true: "PSUBSCRIBE"}[pattern]
+		before := pc.count("confirm")
+		if err := pc.send(cmd, names, nil); err != nil {
+			return false
+		}
+		if !pc.waitCount("confirm", before+len(names), 10*time.Second) {
+			fail("confirmation", fmt.Sprintf("%s %v on %s (sent while other connections were subscribing): %d confirmation(s) expected, %d received", cmd, names, pc.name, len(names), pc.count("confirm")-before))
+			return false
+		}
+		pc.mu.Lock()
+		var confs []psEvent
+		for _, e := range pc.events {
+			if e.Kind == "confirm" {
+				confs = append(confs, e)
+			}
+		}
+		pc.mu.Unlock()
+		confs = confs[before:]
+		mu.Lock()
+		for k, nm := range names {
+			if k < len(confs) {
+				subs = append(subs, &psSub{conn: pc.name, name: nm, pattern: pattern, confirmed: confs[k].T})
+			}
+		}
+		mu.Unlock()
+		return true
+	}
+	unsubscribe := func(pc *psConn, pattern bool, name string) bool {
+		cmd := map[bool]string{false: "UNSUBSCRIBE", true: "PUNSUBSCRIBE"}[pattern]
+		t := clock.Add(1)
+		before := pc.count("unsubreply")
+		if err := pc.send(cmd, []string{name}, nil); err != nil {
+			return false
+		}
+		if !pc.waitCount("unsubreply", before+1, 10*time.Second) {
+			fail("confirmation", fmt.Sprintf("%s %s on %s: no reply", cmd, name, pc.name))
+			return false
+		}
+		mu.Lock()
+		for _, sb := range subs {
+			if sb.conn == pc.name && sb.name == name && sb.pattern == pattern && sb.unsubSent == 0 {
+				sb.unsubSent = t
+			}
+		}
+		mu.Unlock()
+		return true
+	}
+	together := func(n int, f func(k int)) {
+		start := make(chan struct{})
+		var wg sync.WaitGroup
+		for k := 0; k < n; k++ {
+			wg.Add(1)
+			go func(k int) {
+				defer wg.Done()
+				<-start
+				f(k)
+			}(k)
+		}
+		close(start)
+		wg.Wait()
+	}
+	introspect := func(names []string) {
+		mu.Lock()
+		cp := append([]*psSub{}, subs...)
+		mu.Unlock()
+		var tr []string
+		c18IntrospectNames(ctx, admin, cp, fail, &tr, names)
+	}
+	names := []string{"fa1", "fa2", "fa3", "fa4", "fa5", "fa6"}
+	pats := []string{"fa?", "f*6"}
+	// phase A: everybody subscribes at once to names and patterns nobody has used before
+	note(fmt.Sprintf("A: %d connections SUBSCRIBE %v and PSUBSCRIBE %v at the same moment", K, names, pats))
+	together(K, func(k int) {
+		if k%2 == 0 {
+			subscribe(conns[k], false, names)
+			subscribe(conns[k], true, pats)
+		} else {
+			subscribe(conns[k], true, pats)
+			subscribe(conns[k], false, names)
+		}
+	})
+	if failed.Load() {
+		return
+	}
+	introspect(names)
+	// phase B: two publishers at once, every name
+	note("B: 2 publishers x 30 messages over all names")
+	together(2, func(p int) {
+		for j := 0; j < 30; j++ {
+			publish(p, names[(j+p)%len(names)])
+		}
+	})
+	// phase C: two connections leave and re-join fa1 while messages are fanned out to those that stay
+	note("C: s3 and s4 UNSUBSCRIBE/SUBSCRIBE fa1 15 times each while 2 publishers send 2 x 100 messages to fa1")
+	together(4, func(k int) {
+		switch k {
+		case 0, 1:
+			for j := 0; j < 100 && !failed.Load(); j++ {
+				publish(k, "fa1")
+			}
+		default:
+			pc := conns[k+1] // s3, s4
+			for j := 0; j < 15 && !failed.Load(); j++ {
+				if !unsubscribe(pc, false, "fa1") || !subscribe(pc, false, []string{"fa1"}) {
+					return
+				}
+			}
+		}
+	})
+	if failed.Load() {
+		return
+	}
+	introspect(names)
+	// phase D: two connections withdraw the same pattern at the same moment, round after round
+	note("D: s3 and s4 PSUBSCRIBE cp* and PUNSUBSCRIBE cp* at the same moment, 20 rounds")
+	for round := 0; round < 20 && !failed.Load(); round++ {
+		together(2, func(k int) { subscribe(conns[3+k], true, []string{"cp*"}) })
+		together(2, func(k int) { unsubscribe(conns[3+k], true, "cp*") })
+		if round%5 == 4 {
+			introspect(names)
+		}
+	}
+	if failed.Load() {
+		return
+	}
+	// drain: one marker per name; every subscription still alive must see it
+	markers := map[string]*psPub{}
+	for _, ch := range names {
+		markers[ch] = publish(0, ch)
+	}
+	deadline := time.Now().Add(30 * time.Second)
+	mu.Lock()
+	cp := append([]*psSub{}, subs...)
+	mu.Unlock()
+	for _, sb := range cp {
+		if sb.unsubSent != 0 {
+			continue
+		}
+		for _, ch := range names {
+			if !((!sb.pattern && sb.name == ch) || (sb.pattern && globMatch(sb.name, ch))) {
+				continue
+			}
+			var pc *psConn
+			for _, c := range conns {
+				if c.name == sb.conn {
+					pc = c
+				}
+			}
+			for {
+				found := false
+				pc.mu.Lock()
+				for _, e := range pc.events {
+					if e.Kind == "message" && e.Name == sb.name && e.Data == markers[ch].id {
+						found = true
+					}
+				}
+				pc.mu.Unlock()
+				if found {
+					break
+				}
+				if pc.dead.Load() {
+					fail("lost", fmt.Sprintf("connection %s was closed by the server during the concurrent history", pc.name))
+					return
+				}
+				if time.Now().After(deadline) {
+					ctx.Inconclusive("concurrent history: drain marker did not arrive within the watchdog")
+					saveArtefact(ctx.Prop, "concurrent-drain-watchdog", fmt.Sprintf("marker %s for subscription %q of %s", markers[ch].id, sb.name, pc.name))
+					return
+				}
+				time.Sleep(300 * time.Microsecond)
+			}
+		}
+	}
+	time.Sleep(2 * time.Millisecond)
+	mu.Lock()
+	cpp := append([]*psPub{}, pubs...)
+	mu.Unlock()
+	c18CheckHistory(ctx, conns, cp, cpp, fail, 100)
+	ctx.Eval(1)
+	ctx.Class("concurrent|first-subscribers+churn-during-fanout+simultaneous-punsubscribe")
+	ctx.Count("concurrent_publishes", int64(len(cpp)))
+	ctx.Count("concurrent_subscriptions", int64(len(cp)))
+	ctx.Count("reply_watchdog_extended", c18WatchdogExtended.Swap(0))
+	if i == 0 {
+		ctx.Sample("concurrent-history", map[string]interface{}{"phases": trace, "publishes": len(cpp), "subscriptions": len(cp)})
+	}
 }
 
 var c18Channels = []string{"ab", "ac", "bb", "zz"}
@@ -737,6 +1014,10 @@ func c18ReplyTime(evs []psEvent, t int64) int64 {
 }
 
 func c18Introspect(ctx *Ctx, admin *Client, subs []*psSub, fail func(string, string), trace *[]string) {
+	c18IntrospectNames(ctx, admin, subs, fail, trace, c18Channels)
+}
+
+func c18IntrospectNames(ctx *Ctx, admin *Client, subs []*psSub, fail func(string, string), trace *[]string, channels []string) {
 	regular := map[string]int{}
 	patterns := map[string]int{}
 	for _, s := range subs {
@@ -758,6 +1039,10 @@ func c18Introspect(ctx *Ctx, admin *Client, subs []*psSub, fail func(string, str
 	got := map[string]bool{}
 	for _, e := range v.Elems {
 		t, _ := e.Text()
+		if got[t] {
+			fail("introspection", fmt.Sprintf("PUBSUB CHANNELS %s lists %q twice", trunc(v.String(), 300), t))
+			return
+		}
 		got[t] = true
 	}
 	for ch := range regular {
@@ -772,7 +1057,7 @@ func c18Introspect(ctx *Ctx, admin *Client, subs []*psSub, fail func(string, str
 			return
 		}
 	}
-	args := append([]string{"PUBSUB", "NUMSUB"}, c18Channels...)
+	args := append([]string{"PUBSUB", "NUMSUB"}, channels...)
 	v, _, err = admin.Do(args...)
 	if err != nil || !v.IsSeq() {
 		fail("introspection", fmt.Sprintf("PUBSUB NUMSUB: %v %s", err, v.String()))
@@ -787,7 +1072,7 @@ func c18Introspect(ctx *Ctx, admin *Client, subs []*psSub, fail func(string, str
 			flat = append(flat, e)
 		}
 	}
-	if len(flat) != 2*len(c18Channels) {
+	if len(flat) != 2*len(channels) {
 		fail("introspection", "PUBSUB NUMSUB reply has the wrong shape: "+v.String())
 		return
 	}
